@@ -906,7 +906,9 @@ Proof.
     apply negb_forallb_intro with (r := r); [exact Hr | apply mem_false; exact Hnr].
 Qed.
 
-(* R4 loss as specified is violated: 0 (active) Requires 3; 1 Adds 2; 2 Adds 3.
+(* R4 loss as specified is violated from an INCONSISTENT start state:
+   0 (active) Requires 3 which is not active (the start violates R1, hence is
+   unreachable by resolve_require_closed); 1 Adds 2; 2 Adds 3.
    Add [1]: 3 is not yet present in the first pass, so 0 is dropped; the
    second parseAdd pass then brings 3 in, and 0 ends up lost although all
    its Requires are active and nothing Removes it *)
@@ -914,9 +916,10 @@ Definition r4_loss_schema : schema :=
   [mk_sd false [3] [] []; mk_sd false [] [2] []; mk_sd false [] [3] []; mk_sd false [] [] [];
    mk_sd true [] [] []].
 
-Lemma r4_loss_refuted_lemma :
+Lemma r4_loss_inconsistent_start_refuted_lemma :
   exists sc topo active mt called,
     r4_loss_ok sc mt called active (resolve sc topo active mt called) = false /\
+    r1_ok sc active = false /\
     active = [0] /\ resolve sc topo active mt called = [3; 1; 2] /\
     s_require (sget sc 0) = [3].
 Proof. exists r4_loss_schema, [], [0], MAdd, [1]. vm_compute. repeat split; reflexivity. Qed.
@@ -956,3 +959,140 @@ Lemma r4_loss_nonvacuous_lemma :
    diff [1] (resolve sc [] [1] MAdd [0]) = [1] /\
    r4_loss_ok sc MAdd [0] [1] (resolve sc [] [1] MAdd [0]) = true).
 Proof. vm_compute. repeat split; reflexivity. Qed.
+
+(* ------------------------------------------------------------------ *)
+(* R4 loss from consistent (Require-closed) start states               *)
+(* ------------------------------------------------------------------ *)
+
+(* a Require-closed subset of the input survives parseRequire *)
+Lemma parse_require_fuel_keeps_closed : forall (P : nat -> Prop) fuel sc states,
+  (forall x, P x -> In x states) ->
+  (forall x r, P x -> In r (s_require (sget sc x)) -> P r) ->
+  forall x, P x -> In x (parse_require_fuel fuel sc states).
+Proof.
+  intros P fuel. induction fuel as [|f IH]; intros sc states Hsub Hcl x Hx; simpl.
+  - apply Hsub. exact Hx.
+  - destruct (Nat.eqb _ _); [apply Hsub; exact Hx|].
+    apply IH; [|exact Hcl|exact Hx].
+    intros y Hy. apply filter_In. split; [apply Hsub; exact Hy|].
+    unfold req_ok. rewrite forallb_forall. intros r Hr. apply mem_In. apply Hsub.
+    eapply Hcl; eassumption.
+Qed.
+
+Lemma parse_require_keeps_closed : forall (P : nat -> Prop) sc states,
+  (forall x, P x -> In x states) ->
+  (forall x r, P x -> In r (s_require (sget sc x)) -> P r) ->
+  forall x, P x -> In x (parse_require sc states).
+Proof. intros P sc states. apply parse_require_fuel_keeps_closed. Qed.
+
+(* Add / Remove mutations from a Require-closed state: every loss is justified *)
+Lemma r4_loss_consistent_partial_lemma : forall sc topo active mt called,
+  mt <> MSet -> r1_ok sc active = true ->
+  r4_loss_ok sc mt called active (resolve sc topo active mt called) = true.
+Proof.
+  intros sc topo active mt called Hmt Hr1.
+  pose proof (r4_loss_partial_lemma sc topo active mt called) as Hp. simpl in Hp.
+  unfold r4_loss_ok. rewrite forallb_forall in *. intros l Hl.
+  specialize (Hp l Hl). apply orb_true_iff in Hp. destruct Hp as [Hp|Hp]; [exact Hp|].
+  apply negb_true_iff in Hp. apply forallb_false_ex in Hp. destruct Hp as [r [Hr Hm]].
+  unfold diff in Hl. apply filter_In in Hl. destruct Hl as [Hact _].
+  unfold loss_justified. apply orb_true_iff. right.
+  apply negb_forallb_intro with (r := r); [exact Hr|].
+  destruct (mem r (resolve sc topo active mt called)) eqn:Ers; [|reflexivity].
+  exfalso. apply mem_false in Hm. apply Hm. clear Hm.
+  pose proof (proj1 (r1_ok_iff sc active) Hr1) as Hcl_act.
+  pose proof (proj1 (r1_ok_iff sc _) (resolve_require_closed_lemma sc topo active mt called))
+    as Hcl_res.
+  unfold pass1_list.
+  apply parse_require_keeps_closed
+    with (P := fun x => In x active /\ In x (resolve sc topo active mt called)).
+  - intros x [Hxa Hxs]. apply uniq_In. unfold parse_add. apply in_or_app. left.
+    apply uniq_In. destruct mt; simpl.
+    + apply in_or_app. right. exact Hxa.
+    + apply filter_In. split; [exact Hxa|]. apply negb_true_iff. apply mem_false.
+      intros Hc. exact (remove_called_not_gained_lemma sc topo active called x Hxs Hc).
+    + congruence.
+  - intros x q [Hxa Hxs] Hq. simpl in Hq. split.
+    + eapply Hcl_act; eassumption.
+    + eapply Hcl_res; eassumption.
+  - split; [eapply Hcl_act; eassumption | apply mem_In; exact Ers].
+Qed.
+
+(* ... but a Set mutation can lose a state without justification even from a
+   reachable, R1- and R2-consistent start. 0 Requires 1; 2 Adds 3; 3 Adds 1.
+     [] --Add [0;1]--> [0;1] --Set [0;2]--> [1;2;3]
+   Set [0;2] omits 1, so 0 is dropped by the first parseRequire; the second
+   parseAdd pass (3 Adds 1) then re-activates 1. 0 is lost although it was
+   called, its Require 1 is active afterwards and nothing Removes it *)
+Definition r4_loss_set_schema : schema :=
+  [mk_sd false [1] [] []; mk_sd false [] [] []; mk_sd false [] [3] []; mk_sd false [] [1] [];
+   mk_sd true [] [] []].
+
+Lemma r4_loss_consistent_refuted_lemma :
+  exists sc topo (ops : list (mut_type * list nat)) mt called,
+    let active := fold_left (fun act op => resolve sc topo act (fst op) (snd op)) ops [] in
+    r1_ok sc active = true /\ r2_ok sc active = true /\ NoDup active /\
+    active = [0; 1] /\ resolve sc topo active mt called = [1; 2; 3] /\
+    r4_loss_ok sc mt called active (resolve sc topo active mt called) = false.
+Proof.
+  exists r4_loss_set_schema, [], [(MAdd, [0; 1])], MSet, [0; 2]. vm_compute.
+  split; [reflexivity|]. split; [reflexivity|]. split.
+  - repeat constructor; simpl; intuition discriminate.
+  - repeat split; reflexivity.
+Qed.
+
+Lemma r4_loss_consistent_partial_nonvacuous_lemma :
+  (* 1 Requires 0; Remove [0] from [0;1] loses both, each justified *)
+  let sc := [mk_sd false [] [] []; mk_sd false [0] [] []; mk_sd true [] [] []] in
+  r1_ok sc [0; 1] = true /\ MRemove <> MSet /\
+  resolve sc [] [0; 1] MRemove [0] = [] /\
+  diff [0; 1] (resolve sc [] [0; 1] MRemove [0]) = [0; 1].
+Proof. vm_compute. repeat split; try reflexivity. discriminate. Qed.
+
+(* ------------------------------------------------------------------ *)
+(* invariants of every reachable active list                           *)
+(* ------------------------------------------------------------------ *)
+
+Lemma resolve_NoDup_lemma : forall sc topo active mt called,
+  NoDup (resolve sc topo active mt called).
+Proof.
+  intros sc topo active mt called. unfold resolve, target_states.
+  apply sort_states_NoDup. rewrite target_unsorted_eq.
+  apply parse_require_NoDup. apply NoDup_rev. apply uniq_NoDup.
+Qed.
+
+Lemma fold_resolve_inv : forall (Q : list nat -> Prop) sc topo,
+  (forall active mt called, Q (resolve sc topo active mt called)) ->
+  forall (ops : list (mut_type * list nat)) start, Q start ->
+  Q (fold_left (fun act op => resolve sc topo act (fst op) (snd op)) ops start).
+Proof.
+  intros Q sc topo Hstep ops. induction ops as [|op r IH]; intros start Hs; simpl.
+  - exact Hs.
+  - apply IH. apply Hstep.
+Qed.
+
+Lemma inv_reachable_lemma : forall sc topo (ops : list (mut_type * list nat)),
+  r1_ok sc (fold_left (fun act op => resolve sc topo act (fst op) (snd op)) ops []) = true.
+Proof.
+  intros sc topo ops.
+  apply (fold_resolve_inv (fun l => r1_ok sc l = true)).
+  - intros active mt called. apply resolve_require_closed_lemma.
+  - reflexivity.
+Qed.
+
+Lemma inv_reachable_NoDup_lemma : forall sc topo (ops : list (mut_type * list nat)),
+  NoDup (fold_left (fun act op => resolve sc topo act (fst op) (snd op)) ops []).
+Proof.
+  intros sc topo ops. apply (fold_resolve_inv (@NoDup nat)).
+  - intros active mt called. apply resolve_NoDup_lemma.
+  - constructor.
+Qed.
+
+Lemma r4_loss_reachable_lemma : forall sc topo (ops : list (mut_type * list nat)) mt called,
+  mt <> MSet ->
+  let active := fold_left (fun act op => resolve sc topo act (fst op) (snd op)) ops [] in
+  r4_loss_ok sc mt called active (resolve sc topo active mt called) = true.
+Proof.
+  intros sc topo ops mt called Hmt active.
+  apply r4_loss_consistent_partial_lemma; [exact Hmt | apply inv_reachable_lemma].
+Qed.
